@@ -49,8 +49,9 @@ Definition teardown (s : st) (id : nat) : st :=
 
 Inductive op :=
 | RespInstall (id : nat) (c : child) (v1 v2 : bool)     (* responder: install, then track (only if installed) *)
-| InitInstall (id : nat) (c : child) (v1 v2 : bool)     (* initiator: track, then install; a refusal is a generic
-                                                           exception: the IKE_SA becomes DELETED and is torn down *)
+| InitInstall (id : nat) (c : child) (v1 v2 : bool)     (* initiator: install, then track (only if installed, fix
+                                                           d8244e2); a refusal is a generic exception: the IKE_SA
+                                                           becomes DELETED and is torn down *)
 | DeleteChild (id : nat) (c : child)                    (* delete request / response: DELSA x2, then untrack *)
 | Handover (old new : nat)                              (* IKE_SA rekey: the successor takes the list, no kernel call *)
 | Teardown (id : nat)                                   (* the IKE_SA ended: delete_child_sas + table removal *)
@@ -63,7 +64,7 @@ Definition step (s : st) (o : op) : st :=
       if ok then mk_st (tracked s ++ [(id, c)]) sad' else mk_st (tracked s) sad'
   | InitInstall id c v1 v2 =>
       let '(ok, sad') := create_child_sa c v1 v2 (sad s) in
-      if ok then mk_st (tracked s ++ [(id, c)]) sad' else teardown (mk_st (tracked s ++ [(id, c)]) sad') id
+      if ok then mk_st (tracked s ++ [(id, c)]) sad' else teardown (mk_st (tracked s) sad') id
   | DeleteChild id c =>
       mk_st (filter (fun oc => negb (Nat.eqb (fst oc) id && child_eqb (snd oc) c)) (tracked s))
             (delete_child_sa c (sad s))
